@@ -110,14 +110,14 @@ CLAIMS = {
              'not as a full classification of every skipped byte.',
         ref='DESIGN.md §4 C15'),
     'C16': dict(
-        text='Kernel plus four rule sites: full-domain proof (every ValueType pair, every Visibility, arbitrary class hierarchy as an uninterpreted relation) of the analyser\'s compatibility kernel against the relation the property states: '
+        text='Kernel plus five rule sites: full-domain proof (every ValueType pair, every Visibility, arbitrary class hierarchy as an uninterpreted relation) of the analyser\'s compatibility kernel against the relation the property states: '
              'matchesPrimitive, numericPromotion, isAccessible (public always; private owner only; protected owner or subclass), isAssignableType and conversionCost (accept => same primitive / widening / same class or subclass / '
              'null only for class references / same array type; a class or array value never converts to a primitive), the accept/reject decision of the initialiser site (validateTypedInitializer region); and, as whole functions, the visitors of four syntactic sites - '
-             'return statement, assignment statement, assignment expression, member assignment - each proved to accept a value only if it has the declared type (local variable, bare field, object.field, function result), to reject assignments to final variables at the node position, '
+             'return statement, assignment statement, assignment expression, member assignment - and the argument check of call expressions (checkArgs), each proved to accept a value only if it has the declared type (local variable, bare field, object.field, function result), to reject assignments to final variables at the node position, '
              'to reject a value in a void function and a bare return in a non-void one, to route every field write through the final-field rule, to refuse inaccessible fields, instance fields via a type name and final fields except through this inside a constructor; '
              'resolveField (accessibility, static context) and recordFinalFieldAssignment (own constructor, top level, exactly once - map observed at a ghost key).',
         note=TB + 'Generic type-parameter paths are excluded by precondition; class names are interned identities; typeEquals / isSubclassOf / inheritanceDistance / inferTypeInfo / getVariableType / findFieldInHierarchy / accept are contract-only stubs or one-record models (the type of an expression and the class tables are uninterpreted). NOT covered: that each rule is invoked in every syntactic position '
-             '(~55 further visitor methods) - in particular the CALL-ARGUMENT site (visit(CallExpression&)) compares primitive tags itself and (observed by the native oracle, label site.argument.*) still accepts a class value for a primitive parameter; array-element assignment, postfix on finals, void operands, static-context and instantiation rules, @quantum / @shots rules.',
+             '(~55 further visitor methods) - the call-argument check is under contract as the local lambda checkArgs (arity, every argument has the declared parameter type; loop invariant with a ghost argument index), but the rest of visit(CallExpression&) (callee resolution, accessibility, static context, super calls) is not; array-element assignment, postfix on finals, void operands, static-context and instantiation rules, @quantum / @shots rules.',
         ref='DESIGN.md §4 C16'),
     'C17': dict(
         text='Proof of the recording and reporting kernel: (unit TRK) RuntimeEvaluator::endScope and ::recordTrackedValue as whole functions - every @tracked qubit / qubit[] entry of the closing scope (arbitrary iteration order, ghost entry index) and every recorded field value contributes exactly one outcome, '
